@@ -47,3 +47,7 @@ pub use self::protocol::HttpRequest;
 pub use self::protocol::HttpResponse;
 pub use self::protocol::S3Request;
 pub use self::protocol::S3Response;
+
+// verification hook (compiled only under `cargo kani`, see /verif/MANIFEST.json hooks)
+#[cfg(kani)]
+include!(concat!(env!("VERIF_KANI_INC"), "/s3s_lib.rs"));
